@@ -72,6 +72,9 @@ CLAIMED = {
  "C24": ("other", "must-pass-through and loop-totality rules on both tag checks",
          "Decides that every success return of Kernel.Compile and of the legacy generator passes an error-checked checkTagCollisions, that both checks inspect every combinator (no early success/break), reject tag 0 for TL1, reject a lookup hit and insert the tag afterwards, and that the TL2 parser rejects explicit magic 0. Implicit TL2 magics are out of scope.",
          "trusts go/types", "DESIGN.md §3 C24"),
+ "C26": ("other", "loop-totality and shape rules on GenerateTLO",
+         "Does NOT decide that the TLO describes the schema for all schemas, nor decode-back equality (the TL1 duality of the gentlo types is C01). Decides the structural clauses: every constructor unconditionally XORs its tag into its type's name and increments the constructor count (only functions are skipped), a type is created once per name with arity and parameter kinds taken from the declaration, every combinator is listed exactly once with Name = Crc32(), Id = its name and TypeName looked up by type name, and the three counts are list lengths.",
+         "clause only; exact-shape rules on one function", "DESIGN.md §8.2"),
  "C28": ("other", "loop-totality, comparer-coverage and rejection-presence rules on the linter source (necessary conditions only)",
          "Decides necessary conditions of linter soundness: checking loops are total over the old schema, the type comparer reads every wire-relevant part of a type reference, each documented unsafe edit has its rejection. It does NOT decide soundness itself (acceptance ⇒ identical encodings for all values), which depends on the value-level bit-usage analysis.",
          "clause only; trusts go/types", "DESIGN.md §3 C28"),
@@ -117,7 +120,6 @@ NOT_APPLICABLE = {
  "C11": "the property is agreement with an independent reference codec executed on values; its structural parts (layout tables, reader/writer duality) are decided under C33/C01/C03",
  "C12": "the dynamic interpreter is data-driven (loops over kernel fields at run time); there is no per-type code whose shape could be compared, and byte equality over all values needs execution",
  "C22": "print∘parse round trip and idempotence of a line-width-driven formatter are value-level; no structural necessary condition that would distinguish idempotence",
- "C26": "XOR-of-tags names, arities and decode-back equality of the TLO bytes are value-level",
  "C27": "relates two generations of code from two schemas over all values; needs the kernel's semantics as oracle",
  "C29": "acceptance is the absence of every rejection on concrete schema pairs; a syntactic rule was considered and rejected as brittle",
  "C31": "cross-language execution agreement; no type-resolved C++ front end for the generated templates in this sandbox",
